@@ -78,22 +78,72 @@ theorem dead_stream_fails (o : OpSpec) (v : Nat) (topic : Bytes) (c : Conn) (hde
   | true => exact (C11.closed_stays_failed o v topic c hc).1
   | false => exact (cut_in_header_is_error o v topic c hc (by rw [hdead]; decide)).1
 
-/-- fetch on a cut stream: never a complete batch; a kafka error can only come with a used-up stream -/
+/-! ### a cut anywhere in a run of operations
+
+`C11.sequence_aligned` gives the operations before the cut (each as alone on a fresh connection); the operation whose
+response is cut fails and closes the Conn; every later one fails.  For every number of operations, every position of
+the cut inside (or at the start of) a response, every byte content. -/
+
+theorem seqWF_append (a b : List C11.Exch) (id : Int) :
+    C11.seqWF (a ++ b) id ↔ C11.seqWF a id ∧ C11.seqWF b (id + a.length) := by
+  induction a generalizing id with
+  | nil => simp [C11.seqWF]
+  | cons x r ih =>
+    simp only [List.cons_append, C11.seqWF, ih, List.length_cons, and_assoc]
+    have : id + 1 + (r.length : Int) = id + ((r.length + 1 : Nat) : Int) := by omega
+    rw [this]
+
+theorem runOps_append (topic : Bytes) (a b : List C11.Exch) (c : Conn) :
+    C11.runOps topic (a ++ b) c =
+      ((C11.runOps topic a c).1 ++ (C11.runOps topic b (C11.runOps topic a c).2).1,
+       (C11.runOps topic b (C11.runOps topic a c).2).2) := by
+  induction a generalizing c with
+  | nil => rfl
+  | cons x r ih => simp only [List.cons_append, C11.runOps, ih]
+
+theorem cut_in_sequence (topic : Bytes) (pre : List C11.Exch) (e : C11.Exch) (post : List C11.Exch) (c : Conn) (k : Nat)
+    (hopen : c.closed = false) (hwf : C11.seqWF (pre ++ [e]) c.nextId)
+    (hpre : (C11.expectedOuts topic pre).all (fun o => !o.isFail) = true)
+    (hk : k < 8 + e.body.length)
+    (hs : c.stream = C11.streamOf pre ++ (e.hdr ++ e.body).take k) :
+    ∃ out, out.isFail = true ∧
+      (C11.runOps topic (pre ++ e :: post) c).1 =
+        C11.expectedOuts topic pre ++ out :: post.map (fun _ => C11.closedOutcome) ∧
+      (C11.runOps topic (pre ++ e :: post) c).2.closed = true := by
+  obtain ⟨hwp, hwe⟩ := (seqWF_append pre [e] c.nextId).1 hwf
+  obtain ⟨⟨hlen, hsize, hid, hgood, hclose⟩, _⟩ := hwe
+  obtain ⟨ho, hc⟩ := C11.sequence_aligned topic pre c _ hopen hwp hs
+  have hc1 := hc hpre
+  -- the Conn after the complete exchanges: open, positioned at the cut response
+  have hcut : (connDo e.o e.v topic (C11.runOps topic pre c).2).1.isFail = true ∧
+      (connDo e.o e.v topic (C11.runOps topic pre c).2).2.closed = true := by
+    rw [hc1]
+    by_cases h8 : k < 8
+    · exact cut_in_header_is_error e.o e.v topic _ rfl (by simp only [List.length_take, List.length_append]; omega)
+    · have hsplit : (e.hdr ++ e.body).take k = e.hdr ++ e.body.take (k - 8) := by
+        rw [List.take_append, List.take_of_length_le (by omega), hlen]
+      exact cut_is_error e.o e.v topic _ e.hdr (e.body.take (k - 8)) e.body.length hgood hclose rfl
+        (by simp only [hsplit]) hlen hsize (by simpa using hid) (by simp only [List.length_take]; omega)
+  refine ⟨(connDo e.o e.v topic (C11.runOps topic pre c).2).1, hcut.1, ?_, ?_⟩
+  · rw [runOps_append, ho]
+    simp only [C11.runOps, C11.runOps_closed topic post _ hcut.2]
+  · rw [runOps_append]
+    simp only [C11.runOps, C11.runOps_closed topic post _ hcut.2, hcut.2]
+
+/-- fetch on a cut stream, for every conserving message-set reader and however far the caller read the batch before
+Close: a non-kafka error, and the Conn is closed — the same statement as `cut_is_error` (since the fix C02-D33; before
+it a kafka error out of ReadMessage, or an early Close, could end "successfully" on a Conn left in mid-response) -/
 theorem fetch_cut_is_error (v : Nat) (offset : Int) (b : Body) (c : Conn) (hdr tail : Bytes) (n : Nat)
     (hb : b.Conserves) (hopen : c.closed = false)
     (hstream : c.stream = hdr ++ tail) (hlen : hdr.length = 8)
     (hsize : beInt (hdr.take 4) = n + 4) (hid : beInt (hdr.drop 4) = c.nextId)
     (hcut : tail.length < n) :
-    (connFetch true v offset b c).1 ≠ .ok ∧
-    ((connFetch true v offset b c).1.isFail = true → (connFetch true v offset b c).2.closed = true) ∧
-    ((connFetch true v offset b c).1.isFail = false → (connFetch true v offset b c).2.stream = []) := by
+    (connFetch true v offset b c).1.isFail = true ∧ (connFetch true v offset b c).2.closed = true := by
   have hw := C11.wait_hdr c hdr tail n hstream hlen hsize hid
   have hf := fetchRead_cut v offset b ⟨tail, n⟩ hb hcut
   unfold connFetch
   simp only [hopen, Bool.false_eq_true, ↓reduceIte, hw]
-  refine ⟨hf.1, ?_, hf.2⟩
-  intro h
-  simp [h]
+  exact ⟨hf, hf⟩
 
 /-! ### the reflective decoder (Transport path) under its contract -/
 
@@ -494,14 +544,14 @@ section StructuralDecoder
 open KV.Codec KV.CodecAcct
 
 /-- ReadResponse after the size prefix, as a `Decoder` -/
-def codecDecoder (cfg : Cfg) (flex : Bool) (t : Ty) : Decoder (Int × Val) where
+def codecDecoder (cfg : Cfg) (hrec : RecsAcct cfg) (flex : Bool) (t : Ty) : Decoder (Int × Val) where
   run := fun s =>
     match respTail cfg flex t ⟨s.inp, s.sz⟩ with
     | .ok r d => (some r, ⟨d.inp, d.remain⟩)
     | _ => (none, s)
   conserves := by
     intro s
-    have h := respTail_acctz cfg flex t ⟨s.inp, s.sz⟩
+    have h := respTail_acctz cfg hrec flex t ⟨s.inp, s.sz⟩
     cases hr : respTail cfg flex t ⟨s.inp, s.sz⟩ with
     | ok r d =>
       rw [hr] at h
@@ -512,7 +562,7 @@ def codecDecoder (cfg : Cfg) (flex : Bool) (t : Ty) : Decoder (Int × Val) where
     | balloon => exact Reader.Adv.refl s
   ok_after_discardAll := by
     intro s a h
-    have hz := respTail_acctz cfg flex t ⟨s.inp, s.sz⟩
+    have hz := respTail_acctz cfg hrec flex t ⟨s.inp, s.sz⟩
     cases hr : respTail cfg flex t ⟨s.inp, s.sz⟩ with
     | ok r d => rw [hr] at hz; simp only [hr]; exact hz.2
     | error => simp [hr] at h
@@ -523,13 +573,13 @@ def codecDecoder (cfg : Cfg) (flex : Bool) (t : Ty) : Decoder (Int × Val) where
 theorem readResponse_cut_is_error_structural (flex : Bool) (t : Ty) (frame : Bytes)
     (hframe : frame.length = 4 + (announced frame).toNat) (hpos : 0 ≤ announced frame) (k : Nat) (hk : k < frame.length)
     (r : Int × Val) (d : Dec) : readResponse Gen.decoderCfg flex t (frame.take k) ≠ .ok r d :=
-  readResponse_cut_structural Gen.decoderCfg flex t frame hframe hpos k hk r d
+  readResponse_cut_structural Gen.decoderCfg (recsAcct_none _ rfl) flex t frame hframe hpos k hk r d
 
 /-- and a decoded message means the whole announced frame, and nothing else, was consumed (Transport-side alignment) -/
 theorem readResponse_ok_aligned (flex : Bool) (t : Ty) (stream : Bytes) (r : Int × Val) (d : Dec)
     (h : readResponse Gen.decoderCfg flex t stream = .ok r d) :
     4 + (announced stream).toNat ≤ stream.length ∧ d.inp = stream.drop (4 + (announced stream).toNat) := by
-  have := readResponse_ok_consumes_frame Gen.decoderCfg flex t stream r d h
+  have := readResponse_ok_consumes_frame Gen.decoderCfg (recsAcct_none _ rfl) flex t stream r d h
   exact ⟨this.2.2.1, this.2.2.2.1⟩
 
 end StructuralDecoder
